@@ -373,6 +373,13 @@ def C10(tier, rng):
         h = n.to_bytes(2, 'big').hex()
         for e in ('type', 'class', 'qtype', 'qclass', 'flags'):
             cs.append(Case('dec.%s %s' % (e, h), 'dec2'))
+    # names that are NOT equal but look alike (dotted label vs label sequence, bit-5 neighbours of non-letters) inside one element
+    for a, b in look_alike_name_pairs():
+        for rr in ({'ty': 6, 'name': (b'zone',), 'ttl': 1, 'cls': 1, 'f': [a, b, 1, 2, 3, 4, 5]}, {'ty': 14, 'name': a, 'ttl': 1, 'cls': 1, 'f': [b, a]},
+                   {'ty': 2, 'name': a, 'ttl': 1, 'cls': 1, 'f': [b]}, {'ty': 15, 'name': (b'p',) + a, 'ttl': 1, 'cls': 1, 'f': [1, (b'q',) + b]}):
+            cs.append(Case('enc.rr %s' % prr(rr), 'look-alike'))
+            cs.append(Case('enc.struct %s' % prr(rr), 'look-alike'))
+            cs.append(Case('enc.dns %s' % pmsg(msg_with([rr])), 'look-alike', exp=('EMBED', prr(rr))))
     # elements carrying names at and around the 255-octet limit, in every name position
     for n in limit_names():
         cs.append(Case('enc.name %s' % pname(n), 'limit-name'))
